@@ -246,6 +246,8 @@ class Expect:
         self.dim = model.dim
         self.cls = machine.cfg["true"]["cls"]
         self.base = copy.deepcopy(machine.cfg["true"])
+        if machine.rescale_now is not None:
+            self.base["rescale"] = machine.rescale_now
         self.opt_names = list(model.opt_arg)
         self.bounds = {k: list(v) for k, v in model.arg_bounds.items()}
         sel = kw.get("select", {})
@@ -385,6 +387,8 @@ class Machine:
             start[k] = start[k] * f if not (k == "nugget" and start[k] == 0) else 0.0
         self.start = start
         self.model = build(start)
+        self.shared_cfk = {"ftol": 1e-10}   # one options dict object reused by the caller
+        self.rescale_now = None
         self._orig = gsfit.curve_fit
         self.n_fit = 0
 
@@ -437,6 +441,9 @@ class Machine:
         kw["method"] = rng.choice(["trf", "trf", "dogbox"])
         kw["loss"] = rng.choice(["soft_l1", "linear", "huber"])
         kw["bounds"] = rng.random() < 0.25
+        kw["shared_kwargs"] = rng.random() < 0.4
+        if sim and rng.random() < 0.15:
+            kw["rescale"] = rng.choice([0.5, 1.0, 2.0, 3.0])
         op = {"op": "fit", "party": "sim" if sim else "real", "kwargs": kw}
         if sim:
             sched = []
@@ -483,6 +490,9 @@ class Machine:
         if op["party"] == "real":
             # fault free configuration = "from a start near the truth": the user assigns
             # start values (+-20 %) before calling fit_variogram
+            if self.rescale_now is not None:
+                m.rescale = t.get("rescale")  # back to the rescaling the data were made with
+                self.rescale_now = None
             for k in ("len_scale", "nugget", "var"):
                 f = self.cfg["start_scale"][k]
                 v = t[k] * f
@@ -496,6 +506,18 @@ class Machine:
                 setattr(m, o, v)
             if self.kind == "dir":
                 m.anis = [a * 1.1 for a in t["anis"]]
+        if kw.get("rescale") is not None and op["party"] == "sim":
+            # the user changes the rescaling factor of the (already evaluated) model
+            m.variogram(self.x[:2])
+            try:
+                m.rescale = kw["rescale"]
+                m.check_arg_bounds()
+            except ValueError:
+                self.model = build(self.start)
+                self.rescale_now = None
+                raise Inapplicable("rescale pushes a derived value out of bounds")
+            self.rescale_now = float(kw["rescale"])
+            self.ctx.probe("rescale_changed_before_fit")
         pre = read(m)
         # reject selections the documentation declares an error, before building the oracle
         sill = kw.get("sill")
@@ -510,6 +532,9 @@ class Machine:
             call["weights"] = lambda x: 1.0 / (1.0 + x)
         elif w == "inv":
             call["weights"] = "inv"
+        if kw.get("shared_kwargs"):
+            call["curve_fit_kwargs"] = self.shared_cfk
+            self.ctx.probe("shared_curve_fit_kwargs")
         ig = kw.get("init_guess")
         if ig == "dict":
             call["init_guess"] = {"len_scale": pre["len_scale"] * 1.05, "default": "current"}
@@ -537,6 +562,7 @@ class Machine:
             # the failed call may have left a rejected value in the model (write, then
             # check): the user continues with a new model object
             self.model = build(self.start)
+            self.rescale_now = None
             if not party.called and ("sill" in msg or "should be less" in msg):
                 raise Inapplicable("documented ValueError: " + msg[:60])
             if "x0" in msg and "infeasible" in msg or "Residuals are not finite" in msg:
@@ -556,8 +582,10 @@ class Machine:
                     self.model.check_arg_bounds()
                 except Exception:
                     self.model = build(self.start)
+                    self.rescale_now = None
                 raise Inapplicable("simulated optimizer gave up")
             self.model = build(self.start)
+            self.rescale_now = None
             raise Inapplicable("optimizer did not converge: %s" % str(e)[:60])
         finally:
             gsfit.curve_fit = self._orig
